@@ -74,6 +74,57 @@ def explore(chk):
                 chk.correspondence_failure(dict(case, model=out[o][:600], diff=d), "SCC reader: implementation and model differ")
 
 
+def long_line_cases(chk):
+    """one transmission line that runs for more than 1000 frames: a caption, padding words, the erase command, a second
+    caption -- the frame field of the running time code then has four digits.  Expected instants from the property's own
+    arithmetic: word number n of a line stamped hh:mm:ss:ff is sent at second hh*3600+mm*60+ss+(ff+n)/30, times 1001/1000 for
+    a non-drop-frame time code"""
+    sub = chk.sub("long_lines")
+    out = []
+    for sep in (":", ";"):
+        for pad1 in (sub.choice([955, 975]), sub.choice([985, 1100, 1222])):
+            ff = sub.choice([0, 7, 29])
+            ss = sub.choice([1, 30])
+            head = ["9420", "9420", "94ae", "94ae", "9470", "9470", "c1c2", "c8e5", "942f", "942f"]
+            mid = ["8080"] * pad1 + ["942c", "942c"] + ["8080"] * 20
+            tail = ["9420", "9420", "94ae", "94ae", "9470", "9470", "c8e5", "942f", "942f"]
+            ws = head + mid + tail
+            text = "Scenarist_SCC V1.0\n\n00:00:%02d%s%02d\t%s\n\n" % (ss, sep, ff, " ".join(ws))
+            k = Fraction(1) if sep == ";" else Fraction(1001, 1000)
+            T = lambda n: (Fraction(ss) + Fraction(ff + n, 30)) * k * 10 ** 6
+            i1 = head.index("942f"); j = len(head) + pad1; i2 = len(head) + len(mid) + tail.index("942f")
+            out.append((text, [(T(i1), T(j)), (T(i2), T(i2) + 4 * 10 ** 6)]))
+    return out
+
+
+def explore_long(chk):
+    cases = long_line_cases(chk)
+    b = core.Batch()
+    ops = [b.add("scc.read", capio.fr(0), core.enc(text)) for text, _ in cases]
+    out = b.run() if chk.driver_ok else None
+    for (text, want), o in zip(cases, ops):
+        I = sc.impl_read(text, 0)
+        case = {"scc": text[:200] + " ... " + text[-160:], "scc_words": len(text.split()), "offset": 0,
+                "impl": str(I[:2]) if I[0] == "err" else str([(float(c[0]), float(c[1])) for c in I[1]]), "spec": str([(float(a), float(b_)) for a, b_ in want])}
+        chk.case(key=text, nontrivial=True); chk.count("long_lines")
+        if I[0] != "ok":
+            chk.property_failure(case, "a line of more than 1000 frames was not read (%s)" % I[1])
+        elif len(I[1]) != len(want) or any(abs(c[0] - w[0]) > TOL or abs(c[1] - w[1]) > TOL for c, w in zip(I[1], want)):
+            chk.property_failure(case, "on a line that runs for more than 1000 frames a caption's start/end are not the instants of its EOC and of the next EDM")
+        if out is not None:
+            d = sc.compare_impl_model(I, sc.dec_model(out[o]))
+            if d:
+                chk.correspondence_failure(dict(case, model=out[o][:600], diff=d), "SCC reader: implementation and model differ (long line)")
+
+
+_explore_main = explore
+
+
+def explore(chk):
+    _explore_main(chk)
+    explore_long(chk)
+
+
 def replay(path):
     r = json.load(open(path)); c = r.get("case", {})
     if "scc" in c:
